@@ -52,10 +52,10 @@ component objects are stateless apart from the options in `Cfg`).
   `runGOps` does); the real object may have been changed half-way (e.g. the attack of the step that
   then fails has been applied).  The harness ends a history at the first exception and neither dumps
   nor compares what that call left.  What is modelled is *that* and *with which kind of exception*
-  the real code raises, including the two ways in which the unchanged `TeamBattleSim.step` /
-  `PredatorPreyResourcesSim.step` raise for actions of the declared spaces: the truth value of the
-  numpy array of victims (`victimsAreArray`, finding C02-E2) and the missing ledger entry of a killed
-  entity that is not a learning agent (`teamKill`, finding C02-E3).
+  the real code raises.  (Before the repairs afc90bd, c275832, fce2c1d the model also carried the
+  `ValueError` of `if not attacked_agents:` on a numpy array of two or more victims, the `KeyError` of
+  `TeamBattleSim` for a killed entity without ledger entry and the non-accumulator `get_reward` of
+  `MultiMazeNavigationSim` — findings C02-E2, C02-E3, C01-E1, found through this model.)
 * **The action dict** is the list of its items in insertion order (that order is the loop order
   of `step`), keys are agent indices and are distinct (it is a Python dict); each value is the
   agent's own action dict `{'move': …, 'attack': …}` as the record `Act` — a key the agent's
@@ -193,10 +193,11 @@ structure PS where
   r : Ledger
   t : Tape
 
-/-- `TeamBattleSim`: `if not attacked_agent.active: rewards[victim] -= 1; rewards[attacker] += 1` -/
-def teamKill (w : World) (a : Aid) (r : Ledger) (v : Aid) : Except GErr Ledger :=
+/-- `TeamBattleSim`: `if not attacked_agent.active: if is_agent(victim): rewards[victim] -= 1;
+rewards[attacker] += 1` -/
+def teamKill (cfg : Cfg) (w : World) (a : Aid) (r : Ledger) (v : Aid) : Except GErr Ledger :=
   if !(w.stOf v).active then
-    match accrue r v (-100) with
+    match (if cfg.isLearning v then accrue r v (-100) else .ok r) with
     | .error e => .error e
     | .ok r1 => accrue r1 a 100
   else .ok r
@@ -209,18 +210,6 @@ def preyKill (cfg : Cfg) (w : World) (a : Aid) (r : Ledger) (v : Aid) : Except G
     | .ok r1 => if cfg.isLearning v then accrue r1 v (-100) else .ok r1
   else .ok r
 
-/-- `if not attacked_agents:` — the truth value of what `BinaryAttackActor.process_action` returned.
-That is a Python list (`[]`, the list of all attackable agents when there are fewer of them than
-attacks and attacks are not stacked, or the `.tolist()` of the ammunition filter), whose truth value
-is "non-empty", **or the numpy array `np.random.choice(attackable, size=k, …)`**, which has exactly
-`k` entries (a list result has fewer than `k`: `k > len(attackable)`, resp. `ammo < k`).  The truth
-value of an array of one agent is `True`; of an array of two or more it does not exist: numpy raises
-`ValueError` (finding C02-E2). -/
-def victimsAreArray (act : AttackAct) (H : List Aid) : Bool :=
-  match act with
-  | .count k => decide (2 ≤ k) && (H.length == k)
-  | _ => false
-
 /-- one pass of the attack loop of `TeamBattleSim.step` / `PredatorPreyResourcesSim.step` -/
 def attack1 (cfg : Cfg) (p : PS) (x : Aid × Act) : Except GErr PS :=
   if p.w.n ≤ x.1 then .error .keyError                      -- `agent = self.agents[agent_id]`
@@ -229,11 +218,10 @@ def attack1 (cfg : Cfg) (p : PS) (x : Aid × Act) : Except GErr PS :=
     | .error e => .error e
     | .ok ((status, H), w', t') =>
       if status then                                       -- attack was attempted
-        if victimsAreArray x.2.attack H then .error .other -- `if not attacked_agents:` on a numpy array
-        else if H.isEmpty then                             -- attack failed
+        if H.isEmpty then                                  -- `if len(attacked_agents) == 0:` attack failed
           (accrue p.r x.1 (-10)).map fun r => ⟨w', r, t'⟩
         else
-          (foldE (if cfg.which == .predatorPrey then preyKill cfg w' x.1 else teamKill w' x.1) p.r H).map
+          (foldE (if cfg.which == .predatorPrey then preyKill cfg w' x.1 else teamKill cfg w' x.1) p.r H).map
             fun r => ⟨w', r, t'⟩
       else .ok ⟨w', p.r, t'⟩
   else .ok p
@@ -279,13 +267,20 @@ def stepMaze (cfg : Cfg) (p : PS) (acts : List (Aid × Act)) : Except GErr PS :=
       | .error e => .error e
       | .ok r1 => (accrue r1 cfg.navigator (-1)).map fun r => ⟨p1.w, r, p1.t⟩
 
-/-- one pass of the loop of `MultiMazeNavigationSim.step` -/
-def multi1 (p : PS) (x : Aid × Act) : Except GErr PS :=
+/-- one pass of the loop of `MultiMazeNavigationSim.step`: the move, `if self.get_done(agent_id):
+self.reward[agent_id] += 1`, the entropy penalty -/
+def multi1 (cfg : Cfg) (p : PS) (x : Aid × Act) : Except GErr PS :=
   if p.w.n ≤ x.1 then .error .keyError
   else
     match moveAcc p x.1 x.2.move with                      -- no `if agent.active`
     | .error e => .error e
-    | .ok p1 => (accrue p1.r x.1 (-1)).map fun r => ⟨p1.w, r, p1.t⟩
+    | .ok p1 =>
+      match multiDone cfg p1.w x.1 with                    -- `if self.get_done(agent_id):`
+      | .error e => .error e
+      | .ok d =>
+        match (if d then accrue p1.r x.1 100 else .ok p1.r) with
+        | .error e => .error e
+        | .ok r1 => (accrue r1 x.1 (-1)).map fun r => ⟨p1.w, r, p1.t⟩
 
 /-- one pass of the loop of `TrafficCorridorSimulation.step` -/
 def traffic1 (cfg : Cfg) (p : PS) (x : Aid × Act) : Except GErr PS :=
@@ -303,7 +298,7 @@ def stepPS (cfg : Cfg) (p : PS) (acts : List (Aid × Act)) : Except GErr PS :=
   match cfg.which with
   | .teamBattle | .predatorPrey => stepBattle cfg p acts
   | .mazeNav => stepMaze cfg p acts
-  | .multiMaze => foldE multi1 p acts
+  | .multiMaze => foldE (multi1 cfg) p acts
   | .traffic => foldE (traffic1 cfg) p acts
 
 /-- `step(action_dict)` -/
@@ -339,29 +334,19 @@ def getAllDone (cfg : Cfg) (s : St) : Except GErr Bool :=
   | none => .error .other
   | some _ => allDoneW cfg s.w
 
-/-- the value `get_reward(a)` returns.  `SmartGridWorldSimulation`: `self.rewards[agent_id]`;
-`MultiMazeNavigationSim`: `1 if self.get_done(agent_id) else self.reward[agent_id]` -/
-def rewardVal (cfg : Cfg) (w : World) (r : Ledger) (a : Aid) : Except GErr Int :=
-  match cfg.which with
-  | .multiMaze =>
-    match multiDone cfg w a with
-    | .error e => .error e
-    | .ok true => .ok 100
-    | .ok false =>
-      match r.lookup a with
-      | none => .error .keyError
-      | some x => .ok x
-  | _ =>
-    match r.lookup a with
-    | none => .error .keyError
-    | some x => .ok x
+/-- the value `get_reward(a)` returns: `self.rewards[agent_id]` (`MultiMazeNavigationSim`:
+`self.reward[agent_id]`) -/
+def rewardVal (r : Ledger) (a : Aid) : Except GErr Int :=
+  match r.lookup a with
+  | none => .error .keyError
+  | some x => .ok x
 
-/-- `get_reward`: the value, then `self.rewards[agent_id] = 0` -/
-def getReward (cfg : Cfg) (s : St) (a : Aid) : Except GErr (Int × St) :=
+/-- `get_reward`: the value, then `self.rewards[agent_id] = 0` — the same in all five classes -/
+def getReward (_cfg : Cfg) (s : St) (a : Aid) : Except GErr (Int × St) :=
   match s.rewards with
   | none => .error .other
   | some r =>
-    match rewardVal cfg s.w r a with
+    match rewardVal r a with
     | .error e => .error e
     | .ok x => .ok (x, { s with rewards := some (dictSet r a 0) })
 
@@ -480,11 +465,11 @@ is ever used in a reachable state with actions of the declared spaces
 abbrev ObsOut := Except GErr (List (String × Observers.Obs))
 
 /-- what `get_reward` would deliver next (ghost of the manager theorems) -/
-def pendingOf (cfg : Cfg) (s : St) (a : Aid) : Int :=
+def pendingOf (_cfg : Cfg) (s : St) (a : Aid) : Int :=
   match s.rewards with
   | none => 0
   | some r =>
-    match rewardVal cfg s.w r a with
+    match rewardVal r a with
     | .ok x => x
     | .error _ => 0
 
